@@ -97,5 +97,12 @@ ReadBackT == IsRoot => /\ X.reopenErr = ""
                        /\ X.copyObs.refund = X.obs.refund /\ X.copyObs.nlogs = X.obs.nlogs
 \* suicided accounts are gone and, when empty accounts are deleted, no empty account is left in the committed world
 \* among those the root computation touched (existence in the committed world implies non-suicided)
+\* "The state root depends only on the resulting set of accounts and their contents - never on the order or history": the same
+\* mutations interleaved with reads give the same root
+HistoryIndependentT == IsRoot => X.shadowRoot = X.root
+\* "a state reopened from a committed root ... reads back identically": also when another state opened from the same root through
+\* the same database has been modified meanwhile
+TwinIsolatedT == (IsRoot /\ X.twin) => (X.twinRootSame /\ X.twinObs = X.reopenObs)
+
 NoSuicidedT == IsRoot => \A a \in (DOMAIN X.obs.accts) \ LostNow : X.obs.accts[a].exist => ~X.obs.accts[a].suicided
 =============================================================================
